@@ -101,6 +101,10 @@ pub(crate) fn parse_directive(jsx_attr: &JSXAttr, is_component: bool) -> Directi
                                 modifiers = Some(parse_modifiers(elems));
                             }
                         }
+                        if modifiers.is_none() {
+                            // no modifier list in the array: the `_mod` suffixes of the name apply
+                            modifiers = Some(splitted.map(Atom::from).collect());
+                        }
                     }
                 }
             } else {
